@@ -39,7 +39,6 @@ func RebalanceWeight(clusters []*WeightCluster, initialWeight int) {
 		// all lengths are zero, no need to rebalance
 		return
 	}
-	gcdClusterWeight := 0
 	minWeight := -1
 	maxWeight := 0
 	for _, cl := range clusters {
@@ -47,11 +46,6 @@ func RebalanceWeight(clusters []*WeightCluster, initialWeight int) {
 			continue
 		}
 		clusterWeight := cl.Weight * lcmCount / cl.Length
-		if gcdClusterWeight > 0 {
-			gcdClusterWeight = gcd(gcdClusterWeight, clusterWeight)
-		} else {
-			gcdClusterWeight = clusterWeight
-		}
 		if clusterWeight < minWeight || minWeight < 0 {
 			minWeight = clusterWeight
 		}
@@ -59,28 +53,29 @@ func RebalanceWeight(clusters []*WeightCluster, initialWeight int) {
 			maxWeight = clusterWeight
 		}
 	}
-	if gcdClusterWeight == 0 {
+	if maxWeight == 0 {
 		// all weights are zero, no need to rebalance
 		return
 	}
-	// Agent works better if weight is `initial-weight` or
-	// at least the higher value weightFactor will let it to be
-	// weightFactorMin has how many times minWeight is lesser than `initial-weight`.
-	weightFactorMin := float32(initialWeight*gcdClusterWeight) / float32(minWeight)
-	// HAProxy weight must be between 0..256.
-	// weightFactor has how many times the max weight will be greater than 256.
-	weightFactor := weightFactorMin * float32(maxWeight) / float32(256*gcdClusterWeight)
-	// LCM of denominators and GCD of the results are known. Updating ep.Weight
+	// Agent works better if weight is `initial-weight` or at least the higher
+	// value the 0..256 range of HAProxy weights will let it to be: the lesser
+	// weight is `initial-weight`, unless the greater weight would be above 256.
+	// Integer arithmetic, so a weight is never rounded down to zero or up above 256.
+	scaleDown := initialWeight*maxWeight > 256*minWeight
+	// LCM of denominators is known. Updating ep.Weight
 	for _, cl := range clusters {
-		weight := weightFactorMin * float32(cl.Weight*lcmCount) / float32(cl.Length*gcdClusterWeight)
-		if weightFactor > 1 {
-			propWeight := int(weight / weightFactor)
+		if cl.Length == 0 {
+			continue
+		}
+		clusterWeight := cl.Weight * lcmCount / cl.Length
+		if scaleDown {
+			propWeight := 256 * clusterWeight / maxWeight
 			if propWeight == 0 && cl.Weight > 0 {
 				propWeight = 1
 			}
 			cl.Weight = propWeight
 		} else {
-			cl.Weight = int(weight)
+			cl.Weight = initialWeight * clusterWeight / minWeight
 		}
 	}
 }
